@@ -397,6 +397,46 @@ def _assign(m, data):
     return m
 
 
+def unchecked_value_cases(ctx):
+    """Messages holding values that only skip_checks=True lets in are Message values too: copy() without
+    overrides, copy(skip_checks=True, ...), freeze and thaw keep them equal (none of these validates)."""
+    n = 0
+    makers = (('ctor', lambda: Message('note_on', note=300, velocity=-1, time=2, skip_checks=True)),
+              ('copy', lambda: Message('control_change', channel=3).copy(skip_checks=True, value=200)),
+              ('frozen-ctor', lambda: FrozenMessage('pitchwheel', pitch=99999, skip_checks=True)),
+              ('sysex', lambda: Message('sysex', data=(1, 300), skip_checks=True)))
+    # (MetaMessage.copy() always validates, also without overrides: unchecked meta values are not claimed)
+    for label, make in makers:
+        case = {'kind': 'unchecked-values', 'how': label}
+        try:
+            m = make()
+            before = snap(m)
+            c = m.copy()
+            ctx.check('copy() == original, same class, new object', c == m and c is not m and type(c) is type(m), f'unchecked-copy:{label}',
+                      case, lambda: repr(vars(c)))
+            c3 = m.copy(skip_checks=True, time=3)
+            ctx.check('copy(**ov) == fresh construction', {**vars(m), 'time': 3} == vars(c3), f'unchecked-copy-time:{label}', case,
+                      lambda: repr(vars(c3)))
+            f = freeze_message(m)
+            ctx.check('freeze gives the frozen class, equal', f == m and is_frozen(f) and freeze_message(f) is f,
+                      f'unchecked-freeze:{label}', case, lambda: repr(vars(f)))
+            try:
+                ok = {f: 1}[freeze_message(m.copy())] == 1
+            except TypeError:
+                ok = True                     # unhashable contents are another matter
+            ctx.check('equal frozen => equal hash and dict key', ok, f'unchecked-hash:{label}', case, None)
+            t = thaw_message(f)
+            ctx.check('thaw(freeze(m)) == m', t == m and not is_frozen(t) and vars(t) == vars(m), f'unchecked-thaw:{label}', case,
+                      lambda: repr(vars(t)))
+            t2 = thaw_message(m) if not is_frozen(m) else m
+            ctx.check('thaw(freeze(m)) == m', t2 == m, f'unchecked-thaw-unfrozen:{label}', case, None)
+            ctx.check('original unchanged', same(m, before), f'unchecked-original-changed:{label}', case, repr(vars(m)))
+        except Exception as exc:
+            ctx.fail('no exception', f'unchecked:{label}:{type(exc).__name__}', case, f'{type(exc).__name__}: {exc}')
+        n += 1
+    return n
+
+
 def nan_cases(ctx):
     """A NaN time is a real number too; copy/freeze/thaw carry the very same value over."""
     nan = float('nan')
@@ -466,6 +506,7 @@ def run(ctx):
         nan_cases(ctx)
         n += 3
         n += unknown_meta_variants(ctx)
+        n += unchecked_value_cases(ctx)
     ctx.count('cases', n)
 
 
@@ -478,5 +519,7 @@ def replay(ctx, case):
         none_cases(ctx)
     elif case['kind'] == 'unknown-variant':
         unknown_meta_variants(ctx)
+    elif case['kind'] == 'unchecked-values':
+        unchecked_value_cases(ctx)
     else:
         seqspec_probe(ctx)
